@@ -234,6 +234,13 @@ def run(check, an: Analysis):
     from . import c09
     c09.run(SubCheck(check, 'A', 'Lock'), an)
     check.floor('A', 30)
+    # ... as do Done.__set_done__ (a task is finalised once: Task.__close__ leaves a task
+    # alone that already has its outcome) and the Queue (a message is only taken under the
+    # read mutex: no pop from an empty buffer escapes as IndexError)
+    c04.check_task_close(SubCheck(check, 'A', 'Task'), an, 'F')
+    from . import c10, c08
+    c10.run(SubCheck(check, 'A', 'Queue'), an)
+    c08.check_subscription_paired(SubCheck(check, 'A', 'Notification'), an, 'S')
     check.stats.update(an.stats())
 
 
